@@ -9,7 +9,8 @@ for d in /tmp/seed-out/${ID}${SFX}/v*/; do
   k=$(basename $d); [ -f $d/patch.diff ] || continue
   cd $WT; git checkout -q -- .; git clean -fdq
   if ! git apply $d/patch.diff; then echo "$ID $k: does not apply"; continue; fi
-  PK=$(git diff --name-only | xargs -n1 dirname | sort -u | sed 's|^|./|' | tr '\n' ' ')
+  # package directories of the touched files (a data file such as a template belongs to the nearest directory with Go files)
+  PK=$(for f in $(git diff --name-only); do d=$(dirname $f); while [ "$d" != "." ] && ! ls $d/*.go >/dev/null 2>&1; do d=$(dirname $d); done; echo ./$d; done | sort -u | tr '\n' ' ')
   # the frr package's TestMain needs Docker: its docker_test.go is replaced by a stub through a test overlay
   echo "{\"Replace\": {\"$WT/internal/bgp/frr/docker_test.go\": \"/verif/tools/overlay/frr_docker_stub_test.go.txt\"}}" > /tmp/bw-ov-$ID.json
   OK=true; LOG=$(go build ./... 2>&1 && go vet $PK 2>&1 && go test -count=1 -vet=off -overlay /tmp/bw-ov-$ID.json -skip '^TestManager$' $PK ./controller/ ./speaker/ ./internal/allocator/ ./internal/config/ 2>&1) || OK=false
